@@ -18,9 +18,10 @@ import numpoly
 from harness import core, gen, exact
 
 HEADER = """From mathcomp Require Import all_ssreflect all_algebra.
-From NP Require Import Base Divmod.
+From NP Require Import Base Divmod DivmodCut.
 Open Scope ring_scope.
 Definition Q := [fieldType of rat].
+Definition QN := [numFieldType of rat].
 Definition mq (a : int) (b : nat) : rat := a%:Q / (Posz b)%:Q.
 Definition same (x y : spoly Q) : bool := perm_eq (norm x) (norm y).
 Fixpoint all2r (xs ys : seq (spoly Q * spoly Q)) : bool :=
@@ -31,6 +32,8 @@ Fixpoint all2r (xs ys : seq (spoly Q * spoly Q)) : bool :=
   end.
 Definition chkdiv (fuel : nat) (fs gs : seq (spoly Q)) (expect : seq (spoly Q * spoly Q)) : bool :=
   if divmod fuel fs gs is Ok out then all2r out expect else false.
+Definition chkcut (eps : rat) (fuel : nat) (fs gs : seq (spoly Q)) (expect : seq (spoly Q * spoly Q)) : bool :=
+  if @divmod_cut QN eps fuel fs gs is Ok out then all2r out expect else false.
 """
 TARGETS = ["Bridge/BridgeDivmod.vo", "Props/P_C05.vo"]
 CAP = 300
@@ -89,8 +92,9 @@ def padd(a, b, s=1):
     return {m: c for m, c in out.items() if c != 0}
 
 
-def guarded_divmod(f, g):
-    """poly_divmod with an iteration cap raised from inside the loop."""
+def guarded_divmod(f, g, cutoff=None):
+    """poly_divmod with an iteration cap raised from inside the loop (and, for the cut-off stream, with the cut-off of
+    get_division_candidate given explicitly instead of its default)."""
     import numpoly.poly_function.divide.divmod as dm
     orig = dm.get_division_candidate
     count = [0]
@@ -99,6 +103,8 @@ def guarded_divmod(f, g):
         count[0] += 1
         if count[0] > CAP:
             raise RuntimeError("iteration cap")
+        if cutoff is not None:
+            k["cutoff"] = cutoff
         return orig(*a, **k)
     dm.get_division_candidate = wrapper
     try:
@@ -108,9 +114,9 @@ def guarded_divmod(f, g):
         dm.get_division_candidate = orig
 
 
-def run_case(f, g):
+def run_case(f, g, cutoff=None):
     """executed in a forked child: returns picklable observations"""
-    q, r, iters = guarded_divmod(f, g)
+    q, r, iters = guarded_divmod(f, g, cutoff)
     names = sorted(set(numpoly.aspolynomial(f).names) | set(numpoly.aspolynomial(g).names) | set(q.names) | set(r.names), key=core.name_index)
     fb, gb = numpoly.broadcast_arrays(numpoly.aspolynomial(f), numpoly.aspolynomial(g))
     return {"names": names, "shape": list(q.shape), "rshape": list(r.shape), "bshape": list(fb.shape), "iters": iters,
@@ -341,6 +347,37 @@ def run(report, tier, seed):
                                                              f"gives {want} (and a Python number on the left agrees with it)",
                                  {"left": repr(sc), "divisor": str(g), "operator": nm}))
 
+    # ---- the cut-off rule itself, with cut-offs large enough to matter (1/4 .. 2): the model of the skipping rule
+    #      (Model/DivmodCut.v) against get_division_candidate(..., cutoff=eps); the identity must hold whatever is skipped
+    ncut = 40 if tier == "quick" else 600
+    for _ in range(ncut):
+        eps = rng.choice([Fraction(1, 4), Fraction(1, 2), Fraction(1), Fraction(2)])
+        names = tuple(sorted(rng.sample([0, 1, 2], rng.choice([1, 2, 2]))))
+        s1, s2 = gen.broadcast_pair(rng, 1)
+        g = rand_poly(rng, s2, names, rng.randint(1, 3), 2, divisor=True, allow_zero=rng.random() < 0.2)
+        f = rand_poly(rng, s1, names, rng.randint(1, 4), 3)
+        if rng.random() < 0.5:
+            f = f * rng.choice([0.5, 0.25, 0.125])
+        desc = f"poly_divmod({gen.describe(f)}, {gen.describe(g)}) with cutoff={eps}"
+        rep = {"dividend": gen.describe(f), "divisor": gen.describe(g), "cutoff": str(eps)}
+        status, obs = core.forked(run_case, f, g, float(eps), timeout=60)
+        n_eval += 1
+        dist["kinds"]["cutoff"] = dist["kinds"].get("cutoff", 0) + 1
+        if status != "ok":
+            viol.append(("divmod:cutoff:" + status, f"{desc}: {status} {str(obs)[:200]}", rep))
+            continue
+        for i, (fe, ge, qe, re_) in enumerate(zip(obs["f"], obs["g"], obs["q"], obs["r"])):
+            if padd(pmul(qe, ge), re_) != fe:
+                viol.append(("divmod:cutoff:identity", f"{desc}: element {i}: q*divisor + r = {padd(pmul(qe, ge), re_)} differs from the dividend {fe}", rep))
+                break
+        else:
+            small = all(abs(v.numerator) < 5000 and v.denominator < 5000
+                        for part in ("f", "g", "q", "r") for e in obs[part] for v in e.values())
+            if len(obs["f"]) <= 6 and obs["iters"] <= 40 and small:
+                exp = core.cseq(f"({coq_spoly(qe)}, {coq_spoly(re_)})" for qe, re_ in zip(obs["q"], obs["r"]))
+                cc.add(f"chkcut {cq(eps)} {obs['iters'] + 2} {core.cseq(coq_spoly(e) for e in obs['f'])} {core.cseq(coq_spoly(e) for e in obs['g'])} {exp}",
+                       {"kind": "cutoff", **rep, "iterations": obs["iters"]})
+
     failed, errors = cc.run(timeout=1200)
     report.coverage.update({
         "evaluations": n_eval, "distinct_nontrivial": len(nontrivial), "coq_cases": len(cc.cases),
@@ -379,7 +416,7 @@ def run(report, tier, seed):
     report.coverage["trusted_base"] = ["Coq 8.16.1 kernel + VM", "MathComp (rat) / SsrMultinomials",
                                        "translator divmod_tr.py (statement shapes by ast)", "exact rational arithmetic of the harness"]
     report.assumptions += ["floating-point rounding is outside the model: coefficients are chosen so that all quotients are exact",
-                           "the 1e-30 cut-off of get_division_candidate is not modelled",
+                           "the cut-off rule of get_division_candidate is modelled (DivmodCut.v) and run against the code with cut-offs 1/4..2; the identity is proved for every cut-off, TERMINATION only for a cut-off that skips nothing (the default 1e-30 is far below every quotient coefficient the streams produce; its value is tied by divmod_tr)",
                            "default retain options (C15 varies options on other operations)"]
 
 
